@@ -306,6 +306,10 @@ Variants(st, c) ==
   ELSE {c}
 \* an observed (response, post-state) is explained by the model when some variant of the call produces it; the default
 \* choice is tried first (TLC evaluates the disjunction left to right)
+\* a state with every metadata cell blanked: two states that differ only in metadata agree on it
+StripMeta(a) == [a EXCEPT !.study = [s \in Studies |-> IF a.study[s] = Absent THEN Absent ELSE [a.study[s] EXCEPT !.meta = NoMeta]],
+                          !.trial = [s \in Studies |-> [t \in Ids |-> IF a.trial[s][t] = Absent THEN Absent
+                                                                    ELSE [a.trial[s][t] EXCEPT !.meta = NoMeta]]]]
 Matches(c, model, obs) == model.err = obs.err /\ (model.err # None \/ model.val = obs.val)
 
 \* -------------------------------------------- property vocabulary (shared)
